@@ -110,7 +110,7 @@ def run(pid, tier, seed):
             n = nq if q else nt
             scs = gen_core.gen_many(seed, prof, n)
             ncf = CONF_RW[0] if q else CONF_RW[1]
-            plain = [s for s in scs if not any(st["op"] in ("answerhead", "answerrest", "raw") for st in _stims(s))]   # (not in the design model)
+            plain = [s for s in scs if not any(st["op"] in ("answerhead", "answerrest", "raw") or st.get("cls", "").startswith("=") for st in _stims(s))]   # (not in the design model)
             rest = [s for s in scs if s not in plain[:ncf]]
             conf_consts = {"TimeoutOn": "TRUE" if gen_core.PROFILES[prof].get("timeout") else "FALSE"}
             groups.append((gen_core.cfg_for(prof), plain[:ncf], "rwc-" + prof, conf_consts))
